@@ -387,7 +387,18 @@ pub const INJECTORS: &[Inj] = &[
         name: "credential-arity",
         stage: Stage::Arity,
         apply: |b, r| {
-            let k = r.below(5);
+            let k = r.below(8);
+            if k >= 5 {
+                // an escaped '/' is data, not a delimiter: the credential as a client that encodes twice sends it (one
+                // element), or with only its first '/' escaped (four elements)
+                let c = cred(b, |_| {});
+                b.ov.credential = Some(match k {
+                    5 => c.replace('/', "%2F"),
+                    6 => c.replace('/', "%2f"),
+                    _ => c.replacen('/', "%2F", 1),
+                });
+                return true;
+            }
             b.ov.credential = Some(cred(b, |p| match k {
                 0 => {
                     p.pop();
